@@ -27,6 +27,8 @@ import witness  # noqa: E402
 
 REPO = os.environ.get('VF_REPO', '/repo')
 ALL_PROPS = ['C%02d' % i for i in range(1, 21)]
+# registered commands write /verif/evidence; campaign scripts (seeded / refactor / self-test runs on changed trees) redirect it
+EVIDENCE_DIR = os.environ.get('VF_EVIDENCE_DIR', os.path.join(VERIF, 'evidence'))
 
 # default attribution of a failure that does not hit a labelled clause (overflow, index, callee precondition
 # from vstd, unreachable panic, termination) inside a function without an explicit @safety line
@@ -754,8 +756,8 @@ def decide_one(p, a, seed, t0, vr, cr, seeds, kr, fails, maps, image, lookup, co
     }
     if rc == 2:
         ev['coverage']['inconclusive'] = [f['rendered'].split('\n')[0] for f in inconclusive] + [h['name'] + ':' + h['status'] for h in kani_inc] + vac
-    os.makedirs(os.path.join(VERIF, 'evidence'), exist_ok=True)
-    json.dump(ev, open(os.path.join(VERIF, 'evidence', p + '.json'), 'w'), indent=1)
+    os.makedirs(os.path.join(EVIDENCE_DIR), exist_ok=True)
+    json.dump(ev, open(os.path.join(EVIDENCE_DIR, p + '.json'), 'w'), indent=1)
     if rc == 0:
         print('OK property=%s obligations=%d discharged=%d (verus clauses %d, safety %d, kani complete %d; bounded %d) wall=%.1fs'
               % (p, obligations, discharged, n_label, n_fn, len(kani_complete), len(kani_bounded), time.time() - t0))
@@ -767,8 +769,8 @@ def write_evidence(p, tier, seed, t0, cov, violations=0, inconclusive=None, note
           'coverage': cov or {'obligations': 1, 'discharged': 0, 'checker_cmd': 'verus image.rs', 'trusted_base': [],
                               'explanation': 'run did not reach the proof stage: %s' % (inconclusive or note)},
           'wall_s': round(time.time() - t0, 2), 'violations': violations}
-    os.makedirs(os.path.join(VERIF, 'evidence'), exist_ok=True)
-    json.dump(ev, open(os.path.join(VERIF, 'evidence', p + '.json'), 'w'), indent=1)
+    os.makedirs(os.path.join(EVIDENCE_DIR), exist_ok=True)
+    json.dump(ev, open(os.path.join(EVIDENCE_DIR, p + '.json'), 'w'), indent=1)
 
 
 if __name__ == '__main__':
